@@ -213,10 +213,62 @@ def inflight(ctx):
             core.report(ctx, "pooled sorter destroyed with jobs in flight left %d temp file(s) / %d mapping(s) behind" % (obs[-1]["tmpfiles"], obs[-1]["maps"]), {"kind": "abnormal", "why": "leftovers", "obs": obs[-1]})
 
 
+def size_sweep(ctx, b):
+    """readers opened and destroyed on tables whose sizes sweep two pages (what is mapped and what is unmapped are computed
+    from the file size; pages are the unit the kernel releases), and on files of special sizes that are refused"""
+    rng = ctx.rng
+    d = ctx.sub("sizes")
+    tmp = os.path.join(d, "tmp")
+    os.makedirs(tmp, exist_ok=True)
+    step = 96 if ctx.quick() else 12
+    L = ["scratch " + d, "clock 1000"]
+    paths = []
+    for n, vlen in enumerate(range(3500, 3500 + 4096 + 700, step)):
+        pth = os.path.join(d, "z%d.mtbl" % n)
+        L += ["w_init 9 %s none default 1024 2 -1 0" % pth, "w_add 9 6b G%dx%d" % (40000 + n, vlen + rng.randint(0, step - 1)), "w_close 9"]
+        paths.append(pth)
+    # refused files: zero bytes of special sizes, and a real table cut short
+    bad = []
+    for sz in (1, 511, 512, 513, 1024, 4096, 4608, 8192):
+        pth = os.path.join(d, "zero%d" % sz)
+        open(pth, "wb").write(bytes(sz))
+        bad.append(pth)
+    L.append("obs " + tmp)
+
+    def o(line):
+        L.append(line)
+        L.append("obs " + tmp)
+    for pth in paths:
+        o("r_init 1 %s %d 0" % (pth, rng.randint(0, 1)))
+        o("it_iter 1 r:1")
+        o("it_next 1 1")
+        o("it_destroy 1")
+        o("r_destroy 1")
+    for pth in bad:
+        o("r_init 7 %s 0 0" % pth)
+    L += ["obs " + tmp, "leakcheck", "---"]
+    evs, rc, err = core.run_drv(b, "\n".join(L) + "\n", d, "sizes", fork=True, timeout=900,
+                                env={"ASAN_OPTIONS": "detect_leaks=1:exitcode=99:allocator_may_return_null=1", "LSAN_OPTIONS": "exitcode=0:print_suppressions=0"})
+    recs = core.convert_events(evs)
+    out = []
+    for ex in core.split_execs(recs):
+        ext = [e for e in ex if e["e"] == "Exit"]
+        if ext and (ext[0]["code"] != 0 or ext[0]["sig"] != 0):
+            core.report(ctx, "reader open / destroy over a sweep of file sizes ended abnormally (code %s signal %s)" % (ext[0]["code"], ext[0]["sig"]),
+                        {"kind": "abnormal", "why": "code %s signal %s" % (ext[0]["code"], ext[0]["sig"])})
+            continue
+        out += [ex[0], {"e": "Judge", "props": ["C18"]}] + ex[1:]
+        ctx.add("size_sweep_files", len(paths) + len(bad))
+    for ex, line in core.validate_batch(ctx, out, "sizes"):
+        core.report(ctx, "resource ledger not explained at trace line %d (file size sweep): %s (previous call: %s)" % (
+            line, json.dumps(ex[line - 1])[:200], json.dumps(ex[line - 2])[:200] if line > 1 else ""), {"kind": "trace", "trace": ex, "line": line})
+
+
 def run(ctx):
     b = build.build("asan")
     rng = ctx.rng
     tlc_models(ctx)
+    size_sweep(ctx, b)
     inflight(ctx)
     hs = tlc_behaviours(ctx, 160 if ctx.quick() else 5000)
     hs += focused_histories(rng, 120 if ctx.quick() else 3000)
